@@ -7,6 +7,7 @@ import (
 	"fmt"
 	"hash/fnv"
 	"math/rand"
+	"os"
 	"runtime"
 	"sort"
 	"strings"
@@ -38,7 +39,8 @@ type Task struct {
 	dead     bool
 	done     bool
 	parkedAt string
-	Data     any // harness data
+	frozenTo time.Time // not schedulable before this instant (slow thread)
+	Data     any       // harness data
 }
 
 // Config configures one run.
@@ -78,14 +80,16 @@ type Sim struct {
 	tapePos int
 	replay  bool
 
-	Step     int
-	cur      *Task // task released last
-	start    time.Time
-	wallOff  map[int]time.Duration
-	pSwitch  float64
-	pLock    float64
-	pStall   float64
-	maxStall time.Duration
+	Step      int
+	cur       *Task // task released last
+	start     time.Time
+	wallOff   map[int]time.Duration
+	pSwitch   float64
+	pLock     float64
+	pStall    float64
+	maxStall  time.Duration
+	pFreeze   float64
+	maxFreeze time.Duration
 
 	digest     uint64
 	trace      []string
@@ -459,6 +463,10 @@ func (s *Sim) SetSchedKnobs(pSwitch, pLock, pStall float64, maxStall time.Durati
 	s.pSwitch, s.pLock, s.pStall, s.maxStall = pSwitch, pLock, pStall, maxStall
 }
 
+// SetFreezeKnobs enables per-task stalls: with probability p per scheduler step one runnable
+// task is frozen for up to max of simulated time (a descheduled thread).
+func (s *Sim) SetFreezeKnobs(p float64, max time.Duration) { s.pFreeze, s.maxFreeze = p, max }
+
 // AddMonitor registers an invariant evaluated by the scheduler after every step,
 // while every task is parked.
 func (s *Sim) AddMonitor(f func()) { s.monitors = append(s.monitors, f) }
@@ -566,6 +574,40 @@ func (s *Sim) loop() {
 		sort.Slice(cands, func(i, j int) bool { return cands[i].ID < cands[j].ID })
 		s.mu.Unlock()
 
+		// per-task freeze: a runnable task is not scheduled for a while
+		if s.pFreeze > 0 && s.Chance("freeze", s.pFreeze) {
+			t := cands[s.Choose(len(cands), "freeze.task")]
+			d := time.Duration(1+s.Choose(1000, "freeze.d")) * s.maxFreeze / 1000
+			t.frozenTo = time.Now().Add(d)
+			s.Stats["fault.task-freeze"]++
+			s.mu.Lock()
+			s.logf("FREEZE t%d %v", t.ID, d)
+			s.mu.Unlock()
+		}
+		now := time.Now()
+		var thawed []*Task
+		var nextThaw time.Time
+		for _, t := range cands {
+			if t.frozenTo.After(now) {
+				if nextThaw.IsZero() || t.frozenTo.Before(nextThaw) {
+					nextThaw = t.frozenTo
+				}
+				continue
+			}
+			thawed = append(thawed, t)
+		}
+		if len(thawed) == 0 {
+			// every runnable task is frozen: let time pass until the first thaws (or something else wakes)
+			tm := time.NewTimer(nextThaw.Sub(now))
+			select {
+			case <-s.notify:
+				tm.Stop()
+			case <-tm.C:
+			}
+			continue
+		}
+		cands = thawed
+
 		// stall: let simulated time pass while runnable tasks stay parked (slow node / GC pause)
 		if s.pStall > 0 && s.Chance("stall", s.pStall) {
 			d := time.Duration(1+s.Choose(1000, "stall.d")) * s.maxStall / 1000
@@ -663,6 +705,11 @@ func Run(cfg Config, body func(s *Sim)) (res Result) {
 			s.Spawn(-1, "main", func() { body(s) })
 			s.loop()
 			s.endElapsed = time.Since(s.start)
+			if os.Getenv("VERIF_STACKS") != "" {
+				buf := make([]byte, 4<<20)
+				buf = buf[:runtime.Stack(buf, true)]
+				os.Stderr.Write(buf)
+			}
 			for _, f := range s.OnTeardown {
 				f()
 			}
